@@ -131,6 +131,45 @@ def row(c, r):
                        'Some v => closeq (v * inject_Z (Z.of_nat (snd (fst p)))) (inject_Z (fst (fst p))) | None => Nat.eqb (snd (fst p)) 0 end) (combine a e))' % (
                            args, cbool(c['count_include_pad']), exp))
     return '(' + ' && '.join(parts) + ')' if parts else None
+  if layer == 'norm' and c['kind'] in ('layer', 'rms', 'group', 'instance'):
+    # the normalised outputs themselves, without square roots: every unmasked element of every reduction group satisfies
+    # (y - b)^2 (var + eps) = s^2 (x - mean)^2 with the right sign (Model/Layers.v group_norm_ok); the reduction groups are
+    # computed here from the axes, the statistics and the check are the model's
+    x = np.array(c['x'], dtype=np.int64)
+    nd = x.ndim
+    kind = c['kind']
+    idx = np.arange(x.size).reshape(x.shape)
+    if kind in ('layer', 'rms'):
+      red = sorted(a % nd for a in c['reduction_axes'])
+      feat = sorted(a % nd for a in c['feature_axes'])
+      groups = np.moveaxis(idx, red, list(range(nd - len(red), nd))).reshape(-1, int(np.prod([x.shape[a] for a in red])))
+    elif kind == 'instance':
+      feat = [nd - 1]
+      groups = np.moveaxis(idx, nd - 1, 1).reshape(x.shape[0] * x.shape[-1], -1)
+    else:
+      ch = x.shape[-1]
+      ng = c['num_groups'] if c.get('num_groups') is not None else ch // c['group_size']
+      gs = ch // ng
+      feat = [nd - 1]
+      ig = idx.reshape(x.shape[:-1] + (ng, gs))
+      groups = np.moveaxis(ig, ig.ndim - 2, 1).reshape(x.shape[0] * ng, -1)
+    shp = [1] * nd
+    for a in feat:
+      shp[a] = x.shape[a]
+    sc = np.broadcast_to(np.array(c['scale'], dtype=np.int64).reshape(shp), x.shape).reshape(-1) if c['use_scale'] else np.ones(x.size, dtype=np.int64)
+    bi = np.broadcast_to(np.array(c['bias'], dtype=np.int64).reshape(shp), x.shape).reshape(-1) if (c['use_bias'] and kind != 'rms') else np.zeros(x.size, dtype=np.int64)
+    mk = np.broadcast_to(np.array(c['mask'], dtype=bool), x.shape).reshape(-1) if c.get('mask') is not None else np.ones(x.size, dtype=bool)
+    y = np.array(g['data'], dtype=float).reshape(-1)
+    if y.size != x.size or not np.all(np.isfinite(y[mk])):
+      return None
+    xf = x.reshape(-1)
+    cqz = lambda v: '(%d # 1)%%Q' % int(v)
+    parts = []
+    for grp in groups[:12]:
+      parts.append('group_norm_ok (1 # 100000000) %s %s %s %s %s %s %s' % (
+          cq(c['epsilon']), cbool(kind != 'rms'), clist([cZ(int(xf[i])) for i in grp]), clist([cbool(bool(mk[i])) for i in grp]),
+          clist([cqz(sc[i]) for i in grp]), clist([cqz(bi[i]) for i in grp]), clist([cq(y[i]) if mk[i] else '0%Q' for i in grp])))
+    return '(' + ' && '.join(parts) + ')' if parts else None
   if layer == 'norm' and c['kind'] == 'batch':
     x = np.array(c['x'], dtype=np.int64)
     ax = c['axis'] % x.ndim
